@@ -255,7 +255,9 @@ impl Mesh {
 struct MeshNearCheck<'a> {
     this_mesh: &'a Mesh,
     ref_mesh: &'a Mesh,
-    checked: HashMap<u32, bool>,
+    // The part of the check that depends only on the vertex: `None` if it fails, otherwise the
+    // reference normal (if one was needed) for the face dependent angle check
+    checked: HashMap<u32, Option<Option<UnitVec3>>>,
     distance_tol: f64,
     planar_tol: Option<f64>,
     angle_tol: Option<f64>,
@@ -279,52 +281,54 @@ impl<'a> MeshNearCheck<'a> {
         }
     }
 
-    fn store_and_return(&mut self, vertex_index: u32, result: bool) -> bool {
-        self.checked.insert(vertex_index, result);
-        result
+    fn vertex_check(&self, vertex_index: u32) -> Option<Option<UnitVec3>> {
+        let p = self.this_mesh.vertices()[vertex_index as usize];
+        let (prj, ri, _loc) = self.ref_mesh.project_with_max_dist(&p, self.distance_tol)?;
+
+        if self.planar_tol.is_none() && self.angle_tol.is_none() {
+            return Some(None);
+        }
+
+        // We need to get the normal of the reference triangle
+        let rn = self.ref_mesh.shape.triangle(ri).normal()?;
+        let rsp = SurfacePoint3::new(prj.point, rn);
+
+        let check_planar = if let Some(planar_tol) = self.planar_tol {
+            rsp.planar_distance(&p) <= planar_tol
+        } else {
+            true
+        };
+
+        if check_planar {
+            Some(Some(rn))
+        } else {
+            None
+        }
     }
 
     fn near_check(&mut self, vertex_index: u32, face_normal: Option<UnitVec3>) -> bool {
-        if let Some(&checked) = self.checked.get(&vertex_index) {
+        // Only the vertex dependent part of the check can be remembered, the angle check depends on
+        // the face the vertex is being checked for
+        let vertex_result = if let Some(&checked) = self.checked.get(&vertex_index) {
             checked
         } else {
-            let p = self.this_mesh.vertices()[vertex_index as usize];
+            let result = self.vertex_check(vertex_index);
+            self.checked.insert(vertex_index, result);
+            result
+        };
 
-            let is_ok = if let Some((prj, ri, _loc)) =
-                self.ref_mesh.project_with_max_dist(&p, self.distance_tol)
-            {
-                if self.planar_tol.is_none() && self.angle_tol.is_none() {
-                    true
-                } else if let Some(rn) = self.ref_mesh.shape.triangle(ri).normal() {
-                    // We need to get the normal of the reference triangle
-                    let rsp = SurfacePoint3::new(prj.point, rn);
-
-                    let check_planar = if let Some(planar_tol) = self.planar_tol {
-                        rsp.planar_distance(&p) <= planar_tol
-                    } else {
-                        true
-                    };
-
-                    let check_angle = if let Some(angle_tol) = self.angle_tol {
-                        if let Some(face_normal) = face_normal {
-                            face_normal.angle(&rn) <= angle_tol
-                        } else {
-                            // No face normal, so we can't check the angle, assume it's bad?
-                            false
-                        }
-                    } else {
-                        true
-                    };
-
-                    check_planar && check_angle
+        match (vertex_result, self.angle_tol) {
+            (None, _) => false,
+            (Some(_), None) => true,
+            (Some(Some(rn)), Some(angle_tol)) => {
+                if let Some(face_normal) = face_normal {
+                    face_normal.angle(&rn) <= angle_tol
                 } else {
+                    // No face normal, so we can't check the angle, assume it's bad?
                     false
                 }
-            } else {
-                false
-            };
-
-            self.store_and_return(vertex_index, is_ok)
+            }
+            (Some(None), Some(_)) => false,
         }
     }
 }
